@@ -59,9 +59,34 @@ def gen_best_race(r: random.Random) -> dict[str, Any]:
     return {"setup": setup, "calls": calls, "nthreads": nthreads}
 
 
+WAITING_TMPL = {"state": 4, "values": None, "params": {}, "user": {}, "system": {"fixed_params": {"x": 0.5}}, "inter": {}, "start": False, "complete": False}
+
+
+def gen_waiting_race(r: random.Random) -> dict[str, Any]:
+    """A reader lists the WAITING trials (the first thing Study.ask does; InMemoryStorage moves its WAITING cursor
+    there) while another thread queues a WAITING trial / sets one back to WAITING; afterwards the WAITING trials are
+    listed once more: whatever the interleaving, a trial that is WAITING at the end must be in that last answer."""
+    setup: list[dict[str, Any]] = [{"op": "createStudy", "name": "s0", "dirs": [1]}]
+    n0 = r.randint(0, 3)
+    for _ in range(n0):
+        setup.append({"op": "createTrial", "sid": 0, "tmpl": None if r.random() < 0.6 else dict(WAITING_TMPL)})
+    calls: list[dict[str, Any]] = []
+    nthreads = r.choice([2, 2, 3])
+    for th in range(nthreads - 1):
+        for _ in range(r.randint(1, 2)):
+            calls.append({"thread": th, "op": {"op": "getAllTrials", "sid": 0, "states": [4]}})
+    w = nthreads - 1
+    for _ in range(r.randint(1, 2)):
+        calls.append({"thread": w, "op": {"op": "createTrial", "sid": 0, "tmpl": dict(WAITING_TMPL)}})
+    calls.append({"thread": nthreads, "op": {"op": "getAllTrials", "sid": 0, "states": [4]}})
+    return {"setup": setup, "calls": calls, "nthreads": nthreads}
+
+
 def gen_case(r: random.Random) -> dict[str, Any]:
     if r.random() < 0.12:
         return gen_best_race(r)
+    if r.random() < 0.1:
+        return gen_waiting_race(r)
     setup: list[dict[str, Any]] = [{"op": "createStudy", "name": "s0", "dirs": [1]}]
     n_studies = 1
     if r.random() < 0.3:
